@@ -309,7 +309,7 @@ def check_property(prop, tier, seed):
                 undecided.append(f"vacuity: canaries verified in unit {unit}: {cr['verified_unexpectedly']}")
             if cr["canaries"] == 0:
                 undecided.append(f"vacuity: unit {unit} has no canaries")
-            if tier == "thorough" and not relevant_fail:
+            if tier == "thorough" and not [f for f in relevant_fail if f["obligation"] not in {k["obligation"] for k in known}]:
                 # (a) stability: other Z3 seeds and a halved resource limit (informational: a proof that flips is
                 #     reported as unstable in the evidence; it is neither a violation nor a pass/fail criterion)
                 stab = []
@@ -319,7 +319,8 @@ def check_property(prop, tier, seed):
                                  "messages": sorted({d["message"][:80] for d in r2["diagnostics"]})})
                 thorough_extra.setdefault("stability", {})[unit] = stab
                 # (b) teeth: mutants of the generated text must be rejected
-                tr = teeth.run(ur["rs"], ur["meta"], seed, int(os.environ.get("VERIF_MUTANTS", "48")), os.path.join(BUILD, prop, "mutants"))
+                tr = teeth.run(ur["rs"], ur["meta"], seed, int(os.environ.get("VERIF_MUTANTS", "48")), os.path.join(BUILD, prop, "mutants"),
+                               baseline_diags=[d for d in ur["res"]["diagnostics"] if d["class"] == "obligation"])
                 thorough_extra.setdefault("teeth", {})[unit] = tr
                 log(f"teeth[{unit}]: {tr['rejected']}/{tr['mutants']} mutants rejected ({tr['rejected_by_obligation']} by a failed obligation); {len(tr['survivors'])} survivors")
             unit_results.append(ur)
